@@ -107,6 +107,8 @@ type Sim struct {
 	yieldMu    sync.Mutex
 	yieldCount map[string]uint64
 	yieldSites map[string]time.Duration // site -> max delay; absent = no yield
+	panicSites map[string]int           // fault point -> permille of calls that panic
+	panicCalls map[string]uint64
 
 	// pool
 	poolMu    sync.Mutex
@@ -329,6 +331,22 @@ func (s *Sim) yield(site string) {
 	d := time.Duration(s.H("yield:"+site, 0) % uint64(max))
 	s.Probe("yield." + site)
 	time.Sleep(d + time.Nanosecond)
+}
+
+// fault is the cooperative fault point: the n-th call at a site panics when the plan says so.
+func (s *Sim) fault(site string) {
+	s.yieldMu.Lock()
+	rate := s.panicSites[site]
+	if s.panicCalls == nil {
+		s.panicCalls = map[string]uint64{}
+	}
+	s.panicCalls[site]++
+	n := s.panicCalls[site]
+	s.yieldMu.Unlock()
+	if rate > 0 && int(s.H("panic:"+site, n)%1000) < rate {
+		s.Fault("panic." + site)
+		panic("verif: injected panic at " + site)
+	}
 }
 
 // ---- deterministic pool ---------------------------------------------------
